@@ -158,6 +158,11 @@ class WorldGen(object):
                                ["http://sim.test/root/lang/c%23", "http://sim.test/root/lang/c"],
                                ["http://sim.test/root/what%3F", "http://sim.test/root/what"]])
             self.doc_urls[:2] = pair
+        elif k.ndocs >= 1 and rng.random() < 0.15:
+            # a document whose URL contains characters that are not legal in a URI as they stand (users write
+            # them; transports may want them escaped): the store key is the spelling the references use
+            self.doc_urls[0] = rng.choice(["http://sim.test/root/common types.json", "http://sim.test/root/d\u00e9fs.json",
+                                           "http://sim.test/root/a|b^c.json", "http://sim.test/root/sub/{x}.json"])
         # documents that are *falsy* JSON values: the empty schema, an empty array, (draft 6+) false/true
         self.plain_docs = {}
         if rng.random() < 0.3:
